@@ -141,6 +141,56 @@ def suite_memloc(ctx):
                 want = (exp[0] // 8, exp[1] // 8, a, z, data)
                 if f[0] != sid or (skip == 2 and f[1] != dfi) or dec != want:
                     s.fail(dict(rec, observed='frame %s decodes to %s' % (f.hex(), dec), required='sid %02x, widths/values/rest %s' % (sid, want)))
+    # a request refused because of an unusable configured format must leave the caller's MemoryLocation as it was:
+    # the same object, used again under a corrected configuration, follows the precedence rule
+    from udsoncan import MemoryLocation
+    for _ in range(ctx.n(300, 6000)):
+        a = rng.choice([0, 0x12, 0x1234, 0x123456, 2 ** 32])
+        z = rng.choice([1, 0x100, 0x10000])
+        bad = rng.choice([0, 12, 72, 7])
+        if rng.random() < 0.5:      # the configured address format is unusable and would be applied (no explicit address format)
+            af, mf = None, rng.choice([None, 24, 64])
+            caf1, cmf1 = bad, rng.choice(FORMATS[:9])
+            af_eff = af
+        else:                       # the configured size format is unusable and would be applied; the address format was settled first
+            af, mf = rng.choice([None, 32, 40]), None
+            caf1, cmf1 = rng.choice([None, 32, 48]), bad
+            af_eff = af if af is not None else caf1
+        caf2, cmf2 = rng.choice(FORMATS[:9]), rng.choice(FORMATS[:9])
+        k = rng.choice(KINDS)
+        try:
+            ml = MemoryLocation(a, z, af, mf)
+        except Exception:  # noqa
+            continue
+
+        def call(client):
+            if k == 'read':
+                return client.read_memory_by_address(ml)
+            if k == 'write':
+                return client.write_memory_by_address(ml, b'\x01')
+            return client.request_download(ml) if k == 'download' else client.request_upload(ml)
+        c1, conn1 = cl.make_client(cl.Cfg(rt=4, p2=2, p2s=2), extra={'server_address_format': caf1, 'server_memorysize_format': cmf1})
+        cl.observe_outer(conn1, lambda: call(c1))
+        first_sent = [o for o in conn1.log if o[0] == 'send']
+        c2, conn2 = cl.make_client(cl.Cfg(rt=4, p2=2, p2s=2), extra={'server_address_format': caf2, 'server_memorysize_format': cmf2})
+        cl.observe_outer(conn2, lambda: call(c2))
+        sends = [o[1] for o in conn2.log if o[0] == 'send']
+        exp = expected_widths(a, z, af_eff, mf, caf2, cmf2)
+        s.evaluations += 1
+        rec = {'site': k + ' after a refused request', 'input': 'a=%d s=%d af=%s mf=%s refused under server formats (%s, %s), then retried under (%s, %s)' % (a, z, af, mf, caf1, cmf1, caf2, cmf2)}
+        s.distinct.add(rec['input'])
+        if first_sent:
+            s.fail(dict(rec, observed='first call sent a frame', required='refused: unusable configured format'))
+        elif exp is None:
+            if sends:
+                s.fail(dict(rec, observed='sent ' + sends[0].hex(), required='out of domain'))
+        elif not sends:
+            s.fail(dict(rec, observed='rejected', required='transmitted with widths %s' % (exp,)))
+        else:
+            dec = iso_decode(sends[0], {'read': 1, 'write': 1, 'download': 2, 'upload': 2}[k])
+            if dec is None or dec[:4] != (exp[0] // 8, exp[1] // 8, a, z):
+                s.fail(dict(rec, observed='frame %s decodes to %s' % (sends[0].hex(), dec), required='widths %s, address %d, size %d' % (exp, a, z)))
+        s.count('reuse')
     core.compare(s, lines, core.drv_batch(lines), impl, nontrivial=lambda i, o: o != 'reject')
     s.sample({'line': lines[5], 'impl': impl[5]})
     s.sample({'line': lines[-1], 'impl': impl[-1]})
